@@ -67,6 +67,13 @@ class HashedValue(Generic[T]):
         return bool(self.value)
 
 
+class LiveDomain:
+    """
+    Base class for domains whose content changes over time, e.g. the instances of a type known to the symbol graph.
+    A HashedIterable enumerates such a domain anew every time it is iterated instead of caching its values.
+    """
+
+
 @dataclass
 class HashedIterable(Generic[T]):
     """
@@ -89,6 +96,10 @@ class HashedIterable(Generic[T]):
             )
 
     def set_iterable(self, iterable):
+        if isinstance(iterable, LiveDomain):
+            self.iterable = iterable
+            self._source = None
+            return
         if iterable and not isinstance(iterable, HashedIterable):
             self.iterable = (
                 HashedValue(v) if not isinstance(v, HashedValue) else v
@@ -147,6 +158,14 @@ class HashedIterable(Generic[T]):
         # Several evaluations may iterate this domain at the same time (nested loops over queries that share a
         # variable, partially consumed iterators). Each of them replays the cached values by position and only
         # then pulls from the one shared source, so no consumer can steal a value from another one.
+        if isinstance(self.iterable, LiveDomain):
+            seen_ids = set()
+            for v in self.iterable:
+                v = v if isinstance(v, HashedValue) else HashedValue(v)
+                if v.id_ not in seen_ids:
+                    seen_ids.add(v.id_)
+                    yield v
+            return
         position = 0
         cached = []
         while True:
